@@ -310,7 +310,7 @@ func runC04(c *Ctx) {
 				bad = append(bad, fmt.Sprintf("%s is compared with %s", col, a.Cmp))
 			}
 			// R04.4: guarded by the non-nil test of the same query field
-			if strings.HasPrefix(got, "tuple.") && wf.Fn.Name.Name == "whereQuery" {
+			if strings.HasPrefix(got, "tuple.") && whereRole(info, wf.Fn) == "query" {
 				f := strings.TrimPrefix(got, "tuple.")
 				guarded := wf.NonNil[f]
 				queryFieldGuard[f] = guarded
@@ -331,7 +331,7 @@ func runC04(c *Ctx) {
 	perCaseBind := map[string]map[*core.SQLExpr]ast.Expr{}
 	var wsDecl *ast.FuncDecl
 	for _, wf := range m.Wheres {
-		if wf.Fn.Name.Name != "whereSubject" || wf.Expr == nil {
+		if whereRole(info, wf.Fn) != "subject" || wf.Expr == nil {
 			continue
 		}
 		wsDecl = wf.Fn
@@ -381,7 +381,13 @@ func runC04(c *Ctx) {
 	// subject predicate was added (whereSubject called) or a branch was taken on which the
 	// query's Subject is nil - whatever the form of the test (guard, early return, else)
 	subjOK := false
-	if fn := p.Func("(*" + sqlPkgRel + ".Persister).whereQuery"); fn != nil && fn.Blocks != nil {
+	var wqFn *ssa.Function
+	for _, f := range p.KetoFuncs(sqlPkgRel) {
+		if f.Parent() == nil && whereRoleSSA(f) == "query" {
+			wqFn = f
+		}
+	}
+	if fn := wqFn; fn != nil && fn.Blocks != nil {
 		isSubjectField := func(v ssa.Value) bool {
 			u, ok := core.ValueOrigin(v).(*ssa.UnOp)
 			if !ok || u.Op != token.MUL {
@@ -409,7 +415,7 @@ func runC04(c *Ctx) {
 		nCalls := 0
 		res := core.PathCount(fn, func(ins ssa.Instruction) int {
 			if c, ok := ins.(ssa.CallInstruction); ok {
-				if sc := c.Common().StaticCallee(); sc != nil && sc.Name() == "whereSubject" {
+				if sc := c.Common().StaticCallee(); sc != nil && whereRoleSSA(sc) == "subject" {
 					nCalls++
 					return 1
 				}
@@ -443,6 +449,7 @@ func runC04(c *Ctx) {
 			wo[core.Outermost(s.Fn)] = true
 		}
 	}
+	closeWriteOps(p, wo)
 	inputTuplesCovered(c, "R04.9", wo)
 	// R04.10: nothing that acts on "all matching relationships" works from a single page of a paginated listing
 	c.R.SubRun(func() { r075(c, "R07.5") }, map[string]string{"R07.5": "R04.10"})
@@ -991,4 +998,54 @@ func r0412(c *Ctx, rule string) {
 	if n < 1 {
 		r.Undecide(rule, "", "write entries that read the URL query", "", "none found (floor 1: delete by query)")
 	}
+}
+
+// whereRole: the predicate builders of the listing are recognised by what they take, not by their
+// names: a *pop.Query together with the *RelationQuery to filter by ("query"), or with one Subject
+// ("subject").
+func whereRole(info *types.Info, fd *ast.FuncDecl) string {
+	if fd == nil || fd.Type.Params == nil {
+		return ""
+	}
+	hasPop, hasQuery, hasSubject := false, false, false
+	for _, fl := range fd.Type.Params.List {
+		t := info.TypeOf(fl.Type)
+		switch {
+		case core.IsNamed(t, "github.com/gobuffalo/pop/v6", "Query"):
+			hasPop = true
+		case core.IsNamed(t, relPkg, "RelationQuery"):
+			hasQuery = true
+		case core.IsNamed(t, relPkg, "Subject"):
+			hasSubject = true
+		}
+	}
+	switch {
+	case hasPop && hasQuery:
+		return "query"
+	case hasPop && hasSubject:
+		return "subject"
+	}
+	return ""
+}
+
+func whereRoleSSA(fn *ssa.Function) string {
+	hasPop, hasQuery, hasSubject := false, false, false
+	for _, par := range fn.Params {
+		t := par.Type()
+		switch {
+		case core.IsNamed(t, "github.com/gobuffalo/pop/v6", "Query"):
+			hasPop = true
+		case core.IsNamed(t, relPkg, "RelationQuery"):
+			hasQuery = true
+		case core.IsNamed(t, relPkg, "Subject"):
+			hasSubject = true
+		}
+	}
+	switch {
+	case hasPop && hasQuery:
+		return "query"
+	case hasPop && hasSubject:
+		return "subject"
+	}
+	return ""
 }
